@@ -32,9 +32,9 @@ theorem tight_unowned' {c : Cfg} {s : State} (h : Tight c s) {p : Nat}
 
 /-! ### a failed `lock`, from the outcome -/
 
-theorem lockV_fail {c : Cfg} {m : Mach} {v : PVec} {pm : PM} (h : (lockV c m v pm).2 = false) :
+theorem lockV_fail {c : Cfg} {m : Mach} {v : PVec} {pm : LM × PM} (h : (lockV c m v pm).2 = false) :
     (dryocMlock c m (ptr c v) v.len).2 = false ∧
-    (lockV c m v pm).1 = protDrop c (dryocMlock c m (ptr c v) v.len).1 v .unlocked pm := by
+    (lockV c m v pm).1 = protDrop c (dryocMlock c m (ptr c v) v.len).1 v pm.1 pm.2 := by
   unfold lockV at h ⊢
   by_cases hr : (dryocMlock c m (ptr c v) v.len).2 = true
   · simp [hr] at h
@@ -44,15 +44,15 @@ theorem lockV_fail {c : Cfg} {m : Mach} {v : PVec} {pm : PM} (h : (lockV c m v p
 failed (refused, or failed in the kernel), and the slot is consumed -/
 theorem lock_err_eq {c : Cfg} {s : State} {i : Nat} {sl : Slot} (hi : s.slots[i]? = some sl)
     (hg : sl.gone = false) (he : (step c s ⟨.lock, i⟩).1 = .err) :
-    isUnlockedSt sl.o.st = true ∧ (lockV c (resetRel s).m sl.o.v (pmOf sl.o.st)).2 = false ∧
+    isUnlockedSt sl.o.st = true ∧ (lockV c (resetRel s).m sl.o.v (recOfLock sl.o)).2 = false ∧
     step c s ⟨.lock, i⟩ =
-      (.err, setSlot (resetRel s) (lockV c (resetRel s).m sl.o.v (pmOf sl.o.st)).1 i { sl with gone := true }) := by
+      (.err, setSlot (resetRel s) (lockV c (resetRel s).m sl.o.v (recOfLock sl.o)).1 i { sl with gone := true }) := by
   have hstep : step c s ⟨.lock, i⟩ = opLock c (resetRel s) i := rfl
   rw [hstep] at he ⊢
   by_cases hu : isUnlockedSt sl.o.st = true
   · rw [opLock_eq (s := resetRel s) hi hg hu] at he ⊢
     unfold doLock at he ⊢
-    by_cases hr : (lockV c (resetRel s).m sl.o.v (pmOf sl.o.st)).2 = true
+    by_cases hr : (lockV c (resetRel s).m sl.o.v (recOfLock sl.o)).2 = true
     · simp [hr] at he
     · simp only [hr] at he ⊢
       exact ⟨hu, trivial, rfl⟩
@@ -87,8 +87,17 @@ theorem lock_err_cleans {c : Cfg} (hP : 0 < c.P) (hw : c.wipe = true) {s : State
     (step c s ⟨.lock, i⟩).2.m.rel = relOf sl.o.v.cap ∧
     (∀ p, inBlock c.P sl.o.v p →
       (step c s ⟨.lock, i⟩).2.m.k.perm p = .rw ∧ (step c s ⟨.lock, i⟩).2.m.k.locked p = false) := by
-  have hinv := inv_step hP h ⟨.lock, i⟩
+  have hinv := inv_step hP h ⟨.lock, i⟩ (fun hh => by simpa using hh.1)
   obtain ⟨hu, hf, heq⟩ := lock_err_eq hi hg he
+  have hrcu : (recOfLock sl.o).1 = .unlocked := by
+    unfold recOfLock
+    cases hst : sl.o.st with
+    | plain => rfl
+    | prot lm pm =>
+      cases lm
+      · simp only []
+        rw [h.rcd sl (List.mem_of_getElem? hi) hg _ _ hst]
+      · simp [hst, isUnlockedSt] at hu
   obtain ⟨hf1, hf2⟩ := lockV_fail hf
   have hlt : i < s.slots.length := by
     rcases Nat.lt_or_ge i s.slots.length with h1 | h1
@@ -109,9 +118,9 @@ theorem lock_err_cleans {c : Cfg} (hP : 0 < c.P) (hw : c.wipe = true) {s : State
     · rw [List.getElem?_set_ne (by omega)] at hj
       exact Proofs.Protected.inv_disjoint h hi hj (by omega) hg hg' p ⟨hp, hb⟩
   · simp only [setSlot]
-    rw [hf2, protDrop_unlocked_locked]
+    rw [hf2, hrcu, protDrop_unlocked_locked]
     obtain ⟨l1, l2, hs, _⟩ := slot_split hi
-    have g := good_head hs hg h
+    have g := good_head hs hg h.k
     rw [blkOf_unlocked hu] at g
     have gm := (good_dryocMlock hP (m := (resetRel s).m) g).1
     have hflag := dryocMlock_fail_flag hP (m := (resetRel s).m) g hna hf1
@@ -119,6 +128,19 @@ theorem lock_err_cleans {c : Cfg} (hP : 0 < c.P) (hw : c.wipe = true) {s : State
     exact (gm.ok _ List.mem_cons_self).all_unlocked rfl hp
 
 /-! ### failed constructors -/
+
+/-- `zeroize` never answers `err` -/
+theorem zeroize_not_err (c : Cfg) (s : State) (t : Tok) (he : (step c s t).1 = .err) : t.op ≠ .zeroize := by
+  intro hop
+  have : (step c s t).1 = (opZeroize c (resetRel s) t.idx).1 := by
+    unfold step stepCore; rw [hop]
+  rw [this] at he
+  revert he
+  unfold opZeroize
+  apply withLive_elim (Q := fun r => r.1 = .err → False)
+  · simp
+  · simp
+  · intro sl _ _ _ _ _; split <;> simp
 
 theorem countP_range_extend (f : Nat → Bool) (b : Nat) (hf : ∀ p, b ≤ p → f p = false) (d : Nat) :
     (List.range (b + d)).countP f = (List.range b).countP f := by
@@ -140,9 +162,29 @@ theorem lockedPages_eq {k k' : Kernel} (hl : ∀ p, k'.locked p = k.locked p)
   · obtain ⟨d, hd⟩ := Nat.exists_eq_add_of_le h
     rw [hd, countP_range_extend _ _ (fun p hp => by rw [← hl]; exact hf' p hp)]
 
+/-- two states with the SAME slots that both satisfy `Inv` and `Tight` have the same kernel, page by page: the
+slots determine every page of their blocks, and everything else is `rw`, unlocked -/
+theorem same_slots_same_kernel {c : Cfg} {s s' : State} (h : Inv c s) (ht : Tight c s) (hinv : Inv c s')
+    (htight : Tight c s') (hslots : s'.slots = s.slots) :
+    (∀ p, s'.m.k.perm p = s.m.k.perm p ∧ s'.m.k.locked p = s.m.k.locked p) ∧
+    lockedPages s'.m.k = lockedPages s.m.k := by
+  have hpt : ∀ p, s'.m.k.perm p = s.m.k.perm p ∧ s'.m.k.locked p = s.m.k.locked p := by
+    intro p
+    by_cases hex : ∃ (j : Nat) (sl : Slot), s.slots[j]? = some sl ∧ sl.gone = false ∧ inBlock c.P sl.o.v p
+    · obtain ⟨j, sl, hj, hg, hp⟩ := hex
+      exact others_untouched h hinv hj (by rw [hslots]; exact hj) hg hp
+    · have hno : ∀ (j : Nat) (sl : Slot), s.slots[j]? = some sl → sl.gone = false → ¬ inBlock c.P sl.o.v p :=
+        fun j sl hj hg hp => hex ⟨j, sl, hj, hg, hp⟩
+      have hno' : ∀ (j : Nat) (sl : Slot), s'.slots[j]? = some sl → sl.gone = false →
+          ¬ inBlock c.P sl.o.v p := by rw [hslots]; exact hno
+      rw [inv_unowned' h hno, inv_unowned' hinv hno', tight_unowned' ht hno, tight_unowned' htight hno']
+      exact ⟨rfl, rfl⟩
+  exact ⟨hpt, lockedPages_eq (fun p => (hpt p).2) (fun p hp => (h.fresh p hp).2)
+    (fun p hp => (hinv.fresh p hp).2)⟩
+
 /-- a token that answers `err` and is not `lock` (a failed constructor: `fsl`, `fsro`, `newlocked`,
-`genlocked`, `newrolocked`, `genrolocked`) leaves the slots AND every page of the kernel as they
-were: the half-built region has been unlocked, made `rw` and released -/
+`genlocked`, `newrolocked`, `genrolocked`, `stacklock`, `serde`) leaves the slots AND every page of the kernel as
+they were: the half-built region has been unlocked, made `rw` and released -/
 theorem err_create_kernel {c : Cfg} (hP : 0 < c.P) {s : State} (h : Inv c s) (ht : Tight c s) (t : Tok)
     (hop : t.op ≠ .lock) (he : (step c s t).1 = .err) :
     (step c s t).2.slots = s.slots ∧
@@ -152,29 +194,16 @@ theorem err_create_kernel {c : Cfg} (hP : 0 < c.P) {s : State} (h : Inv c s) (ht
     rcases err_shape c (resetRel s) t he with h1 | ⟨h1, _⟩
     · exact h1
     · exact absurd h1 hop
-  have hinv := inv_step hP h t
+  have hinv := inv_step hP h t (fun hh => zeroize_not_err c s t he hh.1)
   have htight := tight_step hP h ht t (Or.inr (fun hl => hop hl.1))
-  have hpt : ∀ p, (step c s t).2.m.k.perm p = s.m.k.perm p ∧
-      (step c s t).2.m.k.locked p = s.m.k.locked p := by
-    intro p
-    by_cases hex : ∃ (j : Nat) (sl : Slot), s.slots[j]? = some sl ∧ sl.gone = false ∧ inBlock c.P sl.o.v p
-    · obtain ⟨j, sl, hj, hg, hp⟩ := hex
-      exact others_untouched h hinv hj (by rw [hslots]; exact hj) hg hp
-    · have hno : ∀ (j : Nat) (sl : Slot), s.slots[j]? = some sl → sl.gone = false → ¬ inBlock c.P sl.o.v p :=
-        fun j sl hj hg hp => hex ⟨j, sl, hj, hg, hp⟩
-      have hno' : ∀ (j : Nat) (sl : Slot), (step c s t).2.slots[j]? = some sl → sl.gone = false →
-          ¬ inBlock c.P sl.o.v p := by rw [hslots]; exact hno
-      rw [inv_unowned' h hno, inv_unowned' hinv hno', tight_unowned' ht hno, tight_unowned' htight hno']
-      exact ⟨rfl, rfl⟩
-  refine ⟨hslots, hpt, ?_⟩
-  exact lockedPages_eq (fun p => (hpt p).2) (fun p hp => (h.fresh p hp).2) (fun p hp => (hinv.fresh p hp).2)
+  exact ⟨hslots, same_slots_same_kernel h ht hinv htight hslots⟩
 
 /-- the release log of a failed creation: exactly the block of the container that could not be locked -/
 theorem doNewLocked_err_rel (c : Cfg) (hw : c.wipe = true) (s : State) (m : Mach) (v : PVec)
     (src : Option Bytes) (ro rnd : Bool) (he : (doNewLocked c s m v src ro rnd).1 = .err) :
     (doNewLocked c s m v src ro rnd).2.m.rel = m.rel ++ relOf v.cap := by
   unfold doNewLocked at he ⊢
-  by_cases hr : (lockV c m v .rw).2 = true
+  by_cases hr : (lockV c m v recNew).2 = true
   · simp [hr] at he
   · simp only [hr, if_false, Bool.false_eq_true]
     rw [lockV_rel c hw]; simp [hr]
